@@ -25,6 +25,7 @@ EXPLANATION = (
     "R5: internal handlers are registered for exactly Disconnect/Ping/GetTime requests, each sends the same-stem response; "
     "the disconnect handler marks, replies, then closes; registration precedes the hello. Payload-value behaviour of "
     "protobuf parsing is not decided."
+    ' Also: a parsed message always reaches the subscriber lookup; a range-guarded lookup outside the try is judged per id.'
 )
 ASSUMPTIONS = ["tuple indexing semantics of Python (negative indices wrap)", "set.copy() returns an independent set", "M1-M5 of DESIGN.md section 2"]
 
